@@ -122,9 +122,21 @@ struct SortEngine : Engine {
 		(void)idx;
 		Plan p;
 		p.argv = {"dsort"};
+		/* -r reverses however often and in whatever spelling it is given */
 		bool rev = r.chance(1, 3);
-		if (rev)
-			p.argv.push_back("-r");
+		if (rev) {
+			unsigned sp = (unsigned)r.below(10);
+			if (sp < 6)
+				p.argv.push_back("-r");
+			else if (sp < 7)
+				p.argv.push_back("--reverse");
+			else if (sp < 8)
+				p.argv.insert(p.argv.end(), {"-r", "-r"});
+			else if (sp < 9)
+				p.argv.push_back("-rr");
+			else
+				p.argv.insert(p.argv.end(), {"--reverse", "-r", "-r"});
+		}
 		int kind = (int)r.range(1, 4);	/* 4 = mixed */
 		bool ymcw = r.chance(1, 8);	/* month-count-weekday dates: the encoding is not monotone, comparison has its own code */
 		if (ymcw) {
@@ -257,7 +269,10 @@ struct SortEngine : Engine {
 		if (!p.has_input && p.files.size() == 2 && !p.files[0].data.empty() && p.files[0].data.back() != '\n')
 			in = p.files[0].data + "\n" + p.files[1].data;
 		auto lines = content_lines(in);
-		bool rev = std::find(p.argv.begin(), p.argv.end(), "-r") != p.argv.end();
+		bool rev = false;
+		for (auto &a : p.argv)
+			if (a == "-r" || a == "-rr" || a == "--reverse")
+				rev = true;
 		v.predicate = std::string(rev ? "reverse" : "forward") + (p.par.count("from_files") ? " from_files" : " from_stdin") +
 			      " pipecap_" + (p.par.count("pipecap") ? p.par.at("pipecap") : "?") + (p.ipar("shortwrites") ? " shortwrites" : "") +
 			      (p.ipar("stdin_closed") ? " stdin_closed" : "");
